@@ -1,7 +1,8 @@
 import CMacVerif.Arith
 import CMacVerif.Gen.TravelDirectionsC02
 /-!
-# Model of `DensitySubGrid::interact` (src/DensitySubGrid.hpp) — cell-by-cell ray march (C02)
+# Model of `DensitySubGrid::interact`, `propagate`, `compute_optical_depth`
+(src/DensitySubGrid.hpp) — cell-by-cell ray march (C02)
 
 Statement-by-statement mirror of `interact` (lines ~1137-1274) and of the helpers it calls:
 `update_photon_position` (248-365), `get_{x,y,z}_index`/`get_start_index` (376-546, 634-685),
@@ -316,6 +317,83 @@ def interact (b : Block α) (cells : Nat → Cell α) (ph : Photon α) (inDir : 
     pos := V3.of fun a => s.pos.get a + b.anchor.get a
     tauLeft := ph.tau - s.tauDone
     outDir := if ph.tau ≤ s.tauDone then (TDC02.dirInside : Int) else outputDirection b.n s.idx
+    finished := r.2
+    last := s }
+
+/-! ## the counters of the cells (`IonizationVariables::increase_mean_intensity`,
+`increase_heating`: `_mean_intensity[ion] += increment`, `_heating[name] += increment`) -/
+
+/-- the counters of one cell that `update_intensity_counters` touches -/
+structure Counters (α : Type) where
+  jH : α           -- `_mean_intensity[ION_H_n]`
+  jHe : α          -- `_mean_intensity[ION_He_n]`
+  jX : α           -- `_mean_intensity[other ion]`
+  hH : α           -- `_heating[HEATINGTERM_H]`
+  hHe : α          -- `_heating[HEATINGTERM_He]`
+
+/-- one call of `update_intensity_counters` on the counters of its cell -/
+def Counters.add (c : Counters α) (v : Visit α) : Counters α :=
+  { jH := c.jH + v.jH, jHe := c.jHe + v.jHe, jX := c.jX + v.jX, hH := c.hH + v.hH, hHe := c.hHe + v.hHe }
+
+/-- the counters of all cells after the visits of a traversal, in order of traversal -/
+def deposit (ctr : Nat → Counters α) (vs : List (Visit α)) : Nat → Counters α :=
+  vs.foldl (fun m v => fun c => if c = v.cell.toNat then (m c).add v else m c) ctr
+
+/-! ## the two other traversals of `DensitySubGrid`: `propagate`, `compute_optical_depth`
+
+Both repeat the loop of `interact` verbatim, with two differences at entry and in the body:
+neither calls `update_photon_position` (the position is used as handed over) and neither calls
+`update_intensity_counters`; `compute_optical_depth` in addition has no optical depth test at
+all: it walks the whole line through the block and ADDS the optical depth found to the packet. -/
+
+/-- loop and result assembly of `interact`/`propagate` from a given loop-entry state -/
+def traverse (b : Block α) (cells : Nat → Cell α) (ph : Photon α) (s0 : St α) : Result α :=
+  let r := march b cells ph (fuel b.n) s0
+  let s := r.1
+  { visits := s.out.reverse
+    pos := V3.of fun a => s.pos.get a + b.anchor.get a
+    tauLeft := ph.tau - s.tauDone
+    outDir := if ph.tau ≤ s.tauDone then (TDC02.dirInside : Int) else outputDirection b.n s.idx
+    finished := r.2
+    last := s }
+
+/-- loop entry of `propagate` and `compute_optical_depth`: `position - _anchor` as it is (no
+`update_photon_position`), `get_start_index` -/
+def initStNoPin (b : Block α) (ph : Photon α) (inDir : Nat) : St α :=
+  let p := relPos b ph.pos
+  { pos := p, idx := startIdx b inDir p, tauDone := 0.0, out := [] }
+
+/-- `DensitySubGrid::propagate(photon, input_direction)`.  The `visits` of the result are a ghost
+record (cell and path of every pass): `propagate` itself touches no counter. -/
+def propagate (b : Block α) (cells : Nat → Cell α) (ph : Photon α) (inDir : Nat) : Result α :=
+  traverse b cells ph (initStNoPin b ph inDir)
+
+/-- loop body of `compute_optical_depth`: always "photon leaves cell" -/
+def stepFree (b : Block α) (cells : Nat → Cell α) (ph : Photon α) (s : St α) : St α :=
+  leave ph s (geo b cells ph s)
+
+/-- `while (is_inside(three_index))`, with fuel -/
+def marchFree (b : Block α) (cells : Nat → Cell α) (ph : Photon α) : Nat → St α → St α × Bool
+  | 0, s => (s, false)
+  | f + 1, s =>
+    if inside b.n s.idx then marchFree b cells ph f (stepFree b cells ph s) else (s, true)
+
+/-- what `compute_optical_depth` leaves behind -/
+structure CodResult (α : Type) where
+  tau : α                   -- `photon.get_target_optical_depth()` afterwards (old value + tau_done)
+  pos : V3 α                -- `photon.get_position()` afterwards (absolute)
+  outDir : Int              -- return value
+  finished : Bool
+  last : St α               -- final loop state; `last.out` = ghost record of the passes
+
+/-- `DensitySubGrid::compute_optical_depth(photon, input_direction)` -/
+def computeOpticalDepth (b : Block α) (cells : Nat → Cell α) (ph : Photon α) (inDir : Nat) :
+    CodResult α :=
+  let r := marchFree b cells ph (fuel b.n) (initStNoPin b ph inDir)
+  let s := r.1
+  { tau := ph.tau + s.tauDone
+    pos := V3.of fun a => s.pos.get a + b.anchor.get a
+    outDir := outputDirection b.n s.idx
     finished := r.2
     last := s }
 
